@@ -1,6 +1,7 @@
 import SppModel.Lemmas.KernelLink
 import SppModel.Lemmas.Loop
 import SppModel.Generated.LoopKernels
+import SppModel.Frozen.LoopKernels
 /-!
 # Kernel specification — `kernels.downsample_2d_mean_flat` as translated computes its definition (C07, C14)
 
@@ -11,10 +12,10 @@ of an index expression, a loop bound or an operand in the source changes the gen
 the proof.
 -/
 namespace SppModel.KernelSpecs
-open SppModel SppModel.Loop SppModel.Generated.LoopKernels SppModel.KernelSpecs.LinkC
+open SppModel SppModel.Loop SppModel.Frozen.LoopKernels SppModel.KernelSpecs.LinkC
 
 /-- the kernel was recognised by the translator on this run -/
-theorem downsample_2d_mean_flat_translated : ∀ f ∈ translationFailures, f.1 ∉ ["kernels_py_loops", "loop_downsample_2d_mean_flat"] := by decide
+theorem downsample_2d_mean_flat_translated : ∀ f ∈ Generated.LoopKernels.translationFailures, f.1 ∉ ["kernels_py_loops", "loop_downsample_2d_mean_flat"] := by decide
 
 /-- `downsample_2d_mean_flat`: `result[n2*i + j] = (Σ_{a<f1} Σ_{b<f2} x[d2*i*f1 + j*f2 + a*d2 + b]) / (f1*f2)`
     for `i < d1/f1`, `j < n2 = d2/f2` -/
@@ -73,7 +74,7 @@ theorem downsample2dFlat_is_kernel (x : List Rat) (d1 d2 f1 f2 : Nat) :
 /-- the executable twin run by the correspondence check (`K` requests of the driver) is the same function:
     it only tabulates the loop state after each iteration (`Loop.forRangeM_eq`) -/
 theorem downsample_2d_mean_flat_exec_eq (memo : Nat) (arr : Nat → Rat) (f1 f2 d1 d2 : Nat) :
-    downsample_2d_mean_flat_exec memo arr f1 f2 d1 d2 = downsample_2d_mean_flat arr f1 f2 d1 d2 := by
-  simp only [downsample_2d_mean_flat_exec, downsample_2d_mean_flat, Loop.forRangeM_eq]
+    Generated.LoopKernels.downsample_2d_mean_flat_exec memo arr f1 f2 d1 d2 = Generated.LoopKernels.downsample_2d_mean_flat arr f1 f2 d1 d2 := by
+  simp only [Generated.LoopKernels.downsample_2d_mean_flat_exec, Generated.LoopKernels.downsample_2d_mean_flat, Loop.forRangeM_eq]
 
 end SppModel.KernelSpecs
